@@ -10,39 +10,45 @@
 (* HitIsAUnit: whatever a probe accepts for key k (kw XOR dw = k) is a     *)
 (* <<key, data>> pair that some writer stored as one unit.                 *)
 (* XorEncoding = FALSE models the mutant that stores the key un-xored.     *)
+(* RereadData = TRUE models a load that reads the data word a second time  *)
+(* for the value it returns (decoding the key with the first read).        *)
 (***************************************************************************)
 EXTENDS Integers, FiniteSets, Sequences, TLC
-CONSTANTS Writers, Keys, Datas, XorEncoding, MaxStores
-VARIABLES kw, dw, wpc, wunit, stored, ppc, pk, pd, probeKey, hits, nstores
-vars == <<kw, dw, wpc, wunit, stored, ppc, pk, pd, probeKey, hits, nstores>>
+CONSTANTS Writers, Keys, Datas, XorEncoding, MaxStores, RereadData
+VARIABLES kw, dw, wpc, wunit, stored, ppc, pk, pd, pdv, probeKey, hits, nstores
+vars == <<kw, dw, wpc, wunit, stored, ppc, pk, pd, pdv, probeKey, hits, nstores>>
 SymDiff(a, b) == (a \ b) \cup (b \ a)
 Enc(k, d) == IF XorEncoding THEN SymDiff({k}, {d}) ELSE {k}
 Init == /\ kw = {} /\ dw = {}
         /\ wpc = [w \in Writers |-> "idle"] /\ wunit = [w \in Writers |-> <<>>]
-        /\ stored = {} /\ ppc = "idle" /\ pk = {} /\ pd = {} /\ probeKey \in Keys /\ hits = {} /\ nstores = 0
+        /\ stored = {} /\ ppc = "idle" /\ pk = {} /\ pd = {} /\ pdv = {} /\ probeKey \in Keys /\ hits = {} /\ nstores = 0
 \* a writer picks a unit and writes its two words in either order
 WBegin(w) == /\ wpc[w] = "idle" /\ nstores < MaxStores
              /\ \E k \in Keys, d \in Datas : wunit' = [wunit EXCEPT ![w] = <<k, d>>] /\ stored' = stored \cup {<<k, d>>}
              /\ wpc' = [wpc EXCEPT ![w] = "both"] /\ nstores' = nstores + 1
-             /\ UNCHANGED <<kw, dw, ppc, pk, pd, probeKey, hits>>
+             /\ UNCHANGED <<kw, dw, ppc, pk, pd, pdv, probeKey, hits>>
 WKey(w) == /\ wpc[w] \in {"both", "keyleft"} /\ kw' = Enc(wunit[w][1], wunit[w][2])
            /\ wpc' = [wpc EXCEPT ![w] = IF wpc[w] = "both" THEN "dataleft" ELSE "idle"]
-           /\ UNCHANGED <<dw, wunit, stored, ppc, pk, pd, probeKey, hits, nstores>>
+           /\ UNCHANGED <<dw, wunit, stored, ppc, pk, pd, pdv, probeKey, hits, nstores>>
 WData(w) == /\ wpc[w] \in {"both", "dataleft"} /\ dw' = {wunit[w][2]}
             /\ wpc' = [wpc EXCEPT ![w] = IF wpc[w] = "both" THEN "keyleft" ELSE "idle"]
-            /\ UNCHANGED <<kw, wunit, stored, ppc, pk, pd, probeKey, hits, nstores>>
+            /\ UNCHANGED <<kw, wunit, stored, ppc, pk, pd, pdv, probeKey, hits, nstores>>
 \* the prober reads the two words in either order, then decides
 PBegin == /\ ppc = "idle" /\ ppc' = "both" /\ \E k \in Keys : probeKey' = k
-          /\ UNCHANGED <<kw, dw, wpc, wunit, stored, pk, pd, hits, nstores>>
-PKey == /\ ppc \in {"both", "keyleft"} /\ pk' = kw /\ ppc' = (IF ppc = "both" THEN "dataleft" ELSE "decide")
-        /\ UNCHANGED <<kw, dw, wpc, wunit, stored, pd, probeKey, hits, nstores>>
-PData == /\ ppc \in {"both", "dataleft"} /\ pd' = dw /\ ppc' = (IF ppc = "both" THEN "keyleft" ELSE "decide")
+          /\ UNCHANGED <<kw, dw, wpc, wunit, stored, pk, pd, pdv, hits, nstores>>
+AfterBoth == IF RereadData THEN "reread" ELSE "decide"
+PKey == /\ ppc \in {"both", "keyleft"} /\ pk' = kw /\ ppc' = (IF ppc = "both" THEN "dataleft" ELSE AfterBoth)
+        /\ UNCHANGED <<kw, dw, wpc, wunit, stored, pd, pdv, probeKey, hits, nstores>>
+PData == /\ ppc \in {"both", "dataleft"} /\ pd' = dw /\ pdv' = dw /\ ppc' = (IF ppc = "both" THEN "keyleft" ELSE AfterBoth)
          /\ UNCHANGED <<kw, dw, wpc, wunit, stored, pk, probeKey, hits, nstores>>
-Decoded == IF XorEncoding THEN SymDiff(pk, pd) ELSE pk
+\* only with RereadData: the returned data comes from a second read of the data word, the key was decoded with the first
+PReread == /\ ppc = "reread" /\ pd' = dw /\ ppc' = "decide"
+           /\ UNCHANGED <<kw, dw, wpc, wunit, stored, pk, pdv, probeKey, hits, nstores>>
+Decoded == IF XorEncoding THEN SymDiff(pk, pdv) ELSE pk
 PDecide == /\ ppc = "decide" /\ ppc' = "idle"
            /\ hits' = IF Decoded = {probeKey} /\ Cardinality(pd) = 1 THEN hits \cup {<<probeKey, CHOOSE d \in pd : TRUE>>} ELSE hits
-           /\ UNCHANGED <<kw, dw, wpc, wunit, stored, pk, pd, probeKey, nstores>>
-Next == (\E w \in Writers : WBegin(w) \/ WKey(w) \/ WData(w)) \/ PBegin \/ PKey \/ PData \/ PDecide
+           /\ UNCHANGED <<kw, dw, wpc, wunit, stored, pk, pd, pdv, probeKey, nstores>>
+Next == (\E w \in Writers : WBegin(w) \/ WKey(w) \/ WData(w)) \/ PBegin \/ PKey \/ PData \/ PReread \/ PDecide
 Spec == Init /\ [][Next]_vars
 HitIsAUnit == hits \subseteq stored
 =============================================================================
